@@ -124,8 +124,16 @@ pub fn type_str(table: &SymbolTable, id: TypeId, depth: u32) -> String {
     }
 }
 
+/// How an origin file is named in the rendering: `f<FileId>` for the Database search, the
+/// source key for the Project search (where FileId numbers are an allocation artefact).
+pub type FileNamer<'a> = &'a dyn Fn(u32) -> String;
+
+pub fn by_file_id(id: u32) -> String {
+    format!("f{id}")
+}
+
 /// Reference to another symbol without its id.
-fn symbol_ref(table: &SymbolTable, id: SymbolId) -> String {
+fn symbol_ref(table: &SymbolTable, id: SymbolId, namer: FileNamer) -> String {
     if id == SymbolId::UNKNOWN {
         return "<unknown>".into();
     }
@@ -134,13 +142,13 @@ fn symbol_ref(table: &SymbolTable, id: SymbolId) -> String {
             "{}@{}{}",
             s.name,
             range_str(s.range),
-            s.origin.map(|o| format!("/f{}", o.file_id.0)).unwrap_or_default()
+            s.origin.map(|o| format!("/{}", namer(o.file_id.0))).unwrap_or_default()
         ),
         None => "<dangling>".into(),
     }
 }
 
-fn kind_str(table: &SymbolTable, kind: &SymbolKind) -> String {
+fn kind_str(table: &SymbolTable, kind: &SymbolKind, namer: FileNamer) -> String {
     match kind {
         SymbolKind::Function {
             return_type,
@@ -150,7 +158,7 @@ fn kind_str(table: &SymbolTable, kind: &SymbolKind) -> String {
             type_str(table, *return_type, 2),
             parameters
                 .iter()
-                .map(|p| symbol_ref(table, *p))
+                .map(|p| symbol_ref(table, *p, namer))
                 .collect::<Vec<_>>()
                 .join(",")
         ),
@@ -164,7 +172,7 @@ fn kind_str(table: &SymbolTable, kind: &SymbolKind) -> String {
                 .unwrap_or_else(|| "-".into()),
             parameters
                 .iter()
-                .map(|p| symbol_ref(table, *p))
+                .map(|p| symbol_ref(table, *p, namer))
                 .collect::<Vec<_>>()
                 .join(",")
         ),
@@ -181,18 +189,18 @@ fn kind_str(table: &SymbolTable, kind: &SymbolKind) -> String {
     }
 }
 
-fn symbol_line(table: &SymbolTable, s: &Symbol, with_builtin_detail: bool) -> String {
+fn symbol_line(table: &SymbolTable, s: &Symbol, with_builtin_detail: bool, namer: FileNamer) -> String {
     let mut line = format!(
         "{} | {} | {} | type={} | origin={} | parent={}",
         s.name,
-        kind_str(table, &s.kind),
+        kind_str(table, &s.kind, namer),
         range_str(s.range),
         type_str(table, s.type_id, 3),
         s.origin
-            .map(|o| format!("f{}", o.file_id.0))
+            .map(|o| namer(o.file_id.0))
             .unwrap_or_else(|| "-".into()),
         s.parent
-            .map(|p| symbol_ref(table, p))
+            .map(|p| symbol_ref(table, p, namer))
             .unwrap_or_else(|| "-".into()),
     );
     if with_builtin_detail {
@@ -214,10 +222,10 @@ fn symbol_line(table: &SymbolTable, s: &Symbol, with_builtin_detail: bool) -> St
 /// Canonical rendering of a symbol table: one line per symbol (sorted), then one line per
 /// scope (kind, owner, parent owner, names visible in it - sorted), then the global-name
 /// lookup result for every top-level name. No SymbolId/TypeId/ScopeId numbers.
-pub fn symbol_table(table: &SymbolTable) -> Vec<String> {
+pub fn symbol_table_with(table: &SymbolTable, namer: FileNamer) -> Vec<String> {
     let mut lines: Vec<String> = table
         .iter()
-        .map(|s| format!("S {}", symbol_line(table, s, true)))
+        .map(|s| format!("S {}", symbol_line(table, s, true, namer)))
         .collect();
     let mut scope_lines = Vec::new();
     for scope in table.scopes() {
@@ -234,7 +242,7 @@ pub fn symbol_table(table: &SymbolTable) -> Vec<String> {
             .symbols
             .iter()
             .filter(|(_, id)| !is_builtin(id))
-            .map(|(k, id)| format!("{k}->{}", symbol_ref(table, *id)))
+            .map(|(k, id)| format!("{k}->{}", symbol_ref(table, *id, namer)))
             .collect();
         names.sort();
         names.push(format!("+{builtins} builtin"));
@@ -245,7 +253,7 @@ pub fn symbol_table(table: &SymbolTable) -> Vec<String> {
                 format!(
                     "{:?}/{}",
                     p.kind,
-                    p.owner.map(|o| symbol_ref(table, o)).unwrap_or_else(|| "-".into())
+                    p.owner.map(|o| symbol_ref(table, o, namer)).unwrap_or_else(|| "-".into())
                 )
             })
             .unwrap_or_else(|| "-".into());
@@ -258,7 +266,7 @@ pub fn symbol_table(table: &SymbolTable) -> Vec<String> {
         scope_lines.push(format!(
             "C {:?} owner={} parent={} using=[{}] names=[{}]",
             scope.kind,
-            scope.owner.map(|o| symbol_ref(table, o)).unwrap_or_else(|| "-".into()),
+            scope.owner.map(|o| symbol_ref(table, o, namer)).unwrap_or_else(|| "-".into()),
             parent_owner,
             usings.join(","),
             names.join(", ")
@@ -274,7 +282,7 @@ pub fn symbol_table(table: &SymbolTable) -> Vec<String> {
             if seen.insert(key.clone()) {
                 let found = table
                     .lookup(&key)
-                    .map(|id| symbol_ref(table, id))
+                    .map(|id| symbol_ref(table, id, namer))
                     .unwrap_or_else(|| "-".into());
                 let ty = table
                     .lookup_type(&key)
